@@ -365,6 +365,7 @@ pub fn render(log: &RunLog, w: &World, max_events: usize) -> Vec<String> {
             Ev::Watchdog => "WATCHDOG".to_string(),
             Ev::ClockSpin => "CLOCK-SPIN (future busy-waited on the clock)".to_string(),
             Ev::SlowWrite { conn, from, to } => format!("  conn {} transport busy {} -> {}", conn, from, to),
+            Ev::LateWake { conn, from, to } => format!("  conn {} data arrived at {}, task polled at {}", conn, from, to),
             Ev::GateHit { conn, offset } => format!("  conn {} inbound stream stalled at byte {}", conn, offset),
         };
         out.push(format!("{:5} {}", i, line));
